@@ -21,7 +21,8 @@ for m in idx:
         verdicts = []
         for prop in props:
             r = subprocess.run([os.path.join(HERE, "check"), prop], capture_output=True, text=True,
-                               env=dict(os.environ, REPO=tmp), cwd=HERE)
+                               env=dict(os.environ, REPO=tmp, VERIF_EVIDENCE_DIR=os.path.join(tmp, "evidence")),
+                               cwd=HERE)
             v = [l for l in r.stdout.splitlines() if l.startswith("VIOLATION")]
             verdicts.append((prop, r.returncode, len(v), v[0][:150] if v else ""))
         ok = all(rc == 1 for (_, rc, _, _) in verdicts) if m["property"] else all(rc == 0 for (_, rc, _, _) in verdicts)
